@@ -23,10 +23,11 @@ type Expect struct {
 	F32   map[string]float64  // key -> value, compared after rounding to float32 with 1 ulp tolerance
 	F64   map[string]float64  // key -> value, relative tolerance 1e-12
 	Names []string            // fields populated (for signatures)
+	Any   map[string]bool     // keys whose value is not specified (anything is accepted)
 }
 
 func newExpect() *Expect {
-	return &Expect{Exact: map[string][]string{}, F32: map[string]float64{}, F64: map[string]float64{}}
+	return &Expect{Exact: map[string][]string{}, F32: map[string]float64{}, F64: map[string]float64{}, Any: map[string]bool{}}
 }
 
 var zeroObs = obs.Exif(exif2.Exif{})
@@ -37,7 +38,7 @@ var zeroObs = obs.Exif(exif2.Exif{})
 func (e *Expect) Compare(got obs.Map) []string {
 	var bad []string
 	for k, g := range got {
-		if strings.HasSuffix(k, ".zone") || k == "Exif.ImageType" {
+		if strings.HasSuffix(k, ".zone") || k == "Exif.ImageType" || e.Any[k] {
 			continue
 		}
 		if want, ok := e.F32[k]; ok {
